@@ -491,6 +491,30 @@ func (w *c12World) sync() {
 			m.Dead = true
 		}
 	}
+	// cross-check of the two sources (router vs namespace store): a mount's storage
+	// lies inside the storage of its own namespace and of no other, and no two
+	// mounts share storage.
+	live := w.liveMounts(nil)
+	for i, m := range live {
+		w.r.Count("mount_prefix_invariant_checks", 1)
+		bad := !strings.HasPrefix(m.Prefix, m.NS.Prefix)
+		for _, o := range w.nss {
+			if o != m.NS && o.Prefix != "" && strings.HasPrefix(m.Prefix, o.Prefix) && len(o.Prefix) > len(m.NS.Prefix) {
+				bad = true
+			}
+		}
+		if bad {
+			w.violate("C12-mount-storage-outside-its-namespace", fmt.Sprintf("mount %s of namespace %q (storage %q) uses the storage prefix %q", m, m.NS.Path, m.NS.Prefix, m.Prefix), nil)
+		}
+		for _, o := range live[i+1:] {
+			if m.Core && o.Core {
+				continue // the token store lives below sys/
+			}
+			if strings.HasPrefix(m.Prefix, o.Prefix) || strings.HasPrefix(o.Prefix, m.Prefix) {
+				w.violate("C12-mount-storage-shared", fmt.Sprintf("mounts %s and %s use overlapping storage prefixes %q and %q", m, o, m.Prefix, o.Prefix), nil)
+			}
+		}
+	}
 	w.regions = w.regions[:0]
 	for _, n := range w.nss {
 		w.regions = append(w.regions, c12Region{Prefix: n.Prefix, NS: n})
